@@ -34,6 +34,9 @@ use std::sync::{Arc, Mutex};
 use std::task::{Context, Poll};
 use tower_service::Service;
 
+#[path = "c17_x.rs"]
+mod x;
+
 fn render_sorted(t: &HeaderMap, out: &mut Vec<String>) {
     let mut ps: Vec<(Vec<u8>, Vec<u8>)> = t.iter().map(|(k, v)| (k.as_str().as_bytes().to_vec(), v.as_bytes().to_vec())).collect();
     ps.sort_by(|a, b| a.0.cmp(&b.0)); // stable: per-name value order kept
@@ -228,6 +231,9 @@ fn run_client(head: Option<RespHead>, resp_evs: Vec<Ev>, req_evs: Vec<Ev>) -> (V
 
 pub fn execute(case: &str) -> String {
     let t: Vec<&str> = case.split(' ').filter(|s| !s.is_empty()).collect();
+    if let Some(s) = x::execute(&t) {
+        return s;
+    }
     match t.as_slice() {
         ["cl", evs @ ..] | ["asis", evs @ ..] => {
             let Some((head, evs)) = parse_head(evs) else { return "bad-case".into() };
@@ -982,6 +988,10 @@ pub fn generate(tier: &str, rng: &mut Rng) -> Vec<String> {
             }
             out.push(case_of("creq", &evs));
         }
+    }
+    // ---- further dimensions (c17_x.rs): entry points, consumers, histories, hints ------------------
+    if kind == "cl" {
+        x::generate(thorough, rng, &mut out);
     }
     out
 }
